@@ -22,6 +22,7 @@ import (
 	"go/token"
 	"os"
 	"path/filepath"
+	"sort"
 	"strings"
 )
 
@@ -176,6 +177,41 @@ func main() {
 		die("processProposal: IsQuorum call or dynamic-voter block not found")
 	}
 
+	// ---- every call site (non-test code under x/ and app/) of a gov keeper method that writes or deletes
+	// proposals, votes, queue entries or the proposal counter
+	writerNames := map[string]bool{"SaveVote": true, "DeleteVote": true, "SaveProposal": true, "AddToActiveProposals": true,
+		"RemoveActiveProposal": true, "AddToEnactmentProposals": true, "RemoveEnactmentProposal": true, "SetNextProposalID": true,
+		"GetNextProposalIDAndIncrement": true, "CreateAndSaveProposalWithContent": true}
+	var writers []string
+	for _, root := range []string{"x", "app"} {
+		filepath.Walk(filepath.Join(*repo, root), func(path string, info os.FileInfo, err error) error {
+			if err != nil || info.IsDir() || !strings.HasSuffix(path, ".go") || strings.HasSuffix(path, "_test.go") || strings.HasSuffix(path, ".pb.go") || strings.HasSuffix(path, ".pb.gw.go") {
+				return nil
+			}
+			f, perr := parser.ParseFile(fset, path, nil, 0)
+			if perr != nil {
+				die("%v", perr)
+			}
+			rel, _ := filepath.Rel(*repo, path)
+			for _, d := range f.Decls {
+				fd, ok := d.(*ast.FuncDecl)
+				if !ok || fd.Body == nil {
+					continue
+				}
+				ast.Inspect(fd.Body, func(n ast.Node) bool {
+					if ce, ok := n.(*ast.CallExpr); ok {
+						if se, ok := ce.Fun.(*ast.SelectorExpr); ok && writerNames[se.Sel.Name] {
+							writers = append(writers, fmt.Sprintf("%s:%s:%s", filepath.ToSlash(rel), fd.Name.Name, se.Sel.Name))
+						}
+					}
+					return true
+				})
+			}
+			return nil
+		})
+	}
+	sort.Strings(writers)
+
 	var o strings.Builder
 	o.WriteString("(* GENERATED by /verif/harness/cmd/gen_govhandlers from x/gov/proposal_handler.go and x/gov/types/router.go -- do not edit *)\n")
 	o.WriteString("From Sekai Require Import Base.Prelude.\n")
@@ -187,6 +223,16 @@ func main() {
 	fmt.Fprintf(&o, "Definition quorum_error_panics_flag : bool := %v.\n", quorumPanics)
 	o.WriteString("(* processProposal: are the veto-capable voters of a dynamic-voter proposal taken from its allowed addresses? *)\n")
 	fmt.Fprintf(&o, "Definition dynamic_veto_from_allowed : bool := %v.\n", dynVeto)
+	o.WriteString("(* every call site of a gov keeper method that writes proposals, votes, queues or the proposal counter: file:function:callee *)\n")
+	o.WriteString("Definition lifecycle_writers : list string := [\n")
+	for i, w := range writers {
+		sep := ";"
+		if i == len(writers)-1 {
+			sep = ""
+		}
+		fmt.Fprintf(&o, "  %q%s\n", w, sep)
+	}
+	o.WriteString("]%string.\n")
 	if err := os.WriteFile(*out, []byte(o.String()), 0o644); err != nil {
 		die("%v", err)
 	}
